@@ -31,6 +31,7 @@ inductive Open where
   | ok
   | unimplemented   -- ErrMethodNotFound
   | internal        -- ErrMethodShape
+  | ctxEnded (a : Abort)  -- the caller's context had already ended: Canceled / DeadlineExceeded
   deriving DecidableEq, Repr
 
 namespace Conn
@@ -46,8 +47,12 @@ def findStream (d : ServiceDesc) (method : String) : Option StreamDesc :=
 /-- `adaptUnaryToStream`: a unary method as a stream description with both flags false. -/
 def adaptUnaryToStream (m : String) : StreamDesc := ⟨m, false, false⟩
 
-/-- `wrapper.NewStream` up to the point where the handler goroutine is started. -/
-def newStream (d : ServiceDesc) (method : String) (clientStreams serverStreams : Bool) : Open :=
+/-- `wrapper.NewStream` up to the point where the handler goroutine is started. `ctx` = why the
+caller's context has already ended, if it has (checked first, as gRPC does). -/
+def newStream (d : ServiceDesc) (ctx : Option Abort) (method : String) (clientStreams serverStreams : Bool) : Open :=
+  match ctx with
+  | some a => .ctxEnded a
+  | none =>
   let matched : Option StreamDesc :=
     match findStream d method with
     | some s => some s
@@ -58,10 +63,13 @@ def newStream (d : ServiceDesc) (method : String) (clientStreams serverStreams :
     if s.serverStreams != serverStreams || s.clientStreams != clientStreams then .internal else .ok
 
 /-- `wrapper.Invoke` up to the point where the handler goroutine is started. -/
-def invoke (d : ServiceDesc) (method : String) : Open :=
-  match findMethod d method with
-  | some _ => .ok
-  | none => .unimplemented
+def invoke (d : ServiceDesc) (ctx : Option Abort) (method : String) : Open :=
+  match ctx with
+  | some a => .ctxEnded a
+  | none =>
+    match findMethod d method with
+    | some _ => .ok
+    | none => .unimplemented
 
 end Conn
 
@@ -107,15 +115,17 @@ def openErrT (o : Open) : Transcript :=
   match o with
   | .unimplemented => ⟨[.fin 12 "method not found"], []⟩
   | .internal => ⟨[.fin 13 "method stream shape mismatch"], []⟩
+  | .ctxEnded a => ⟨[.aborted a], []⟩
   | .ok => endT
 
 namespace Wrap
 
-/-- Opening a call of the given shape on the wrapped TestApi server. -/
+/-- Opening a call of the given shape on the wrapped TestApi server (live context: the scripts place
+cancel / deadline themselves). -/
 def «open» (shape : Shape) : Open :=
   match shape with
-  | .unary => Conn.invoke testApi (fullName testApi.serviceName shape.method)
-  | _ => Conn.newStream testApi (fullName testApi.serviceName shape.method) shape.clientStreams shape.serverStreams
+  | .unary => Conn.invoke testApi none (fullName testApi.serviceName shape.method)
+  | _ => Conn.newStream testApi none (fullName testApi.serviceName shape.method) shape.clientStreams shape.serverStreams
 
 /-- One scripted call through `wrap.ServerToClient`: lookup and shape check, `startStream` (the
 handler sees a clone of the outgoing metadata), then the joint run over a fresh ClientServerStream. -/
